@@ -1,6 +1,7 @@
 package composite
 
 import (
+	"net/http"
 	"testing"
 
 	vs "metacontroller/pkg/internal/verifsim"
@@ -288,4 +289,39 @@ func TestVerifC12FixedExhaustive(t *testing.T) {
 
 func TestVerifC12Random(t *testing.T) {
 	vs.Run(t, "C12", func(c *vs.Case) error { return vw.PropC12(c, compositeFactory, "composite", false) })
+}
+
+func TestVerifC13Composite(t *testing.T) {
+	vs.Run(t, "C13", func(c *vs.Case) error { return vw.PropC13(c, compositeFactory, "composite") })
+}
+
+func TestVerifC13RegressionsNull(t *testing.T) {
+	answer := func(body string, customize bool) func() error {
+		return func() error {
+			scn := vw.FixedScn("widgets", "InPlace", []string{"w0"}, 1)
+			scn.Cfg.CustomizeHook = customize
+			env, err := vw.NewEnv(scn, compositeFactory)
+			if err != nil {
+				return err
+			}
+			env.SyncFresh()
+			url := vw.SyncURL
+			if customize {
+				url = vw.CustomizeURL
+				env.W.Sim.ExtUpdate("things", "ns1", "p1", func(o map[string]any) { o["spec"].(map[string]any)["other"] = "bump" })
+			}
+			env.W.Hooks.Handle(url, func(_ *http.Request, _ []byte) vw.HookResponse {
+				return vw.HookResponse{Code: 200, Body: []byte(body)}
+			})
+			if tr := env.SyncFresh(); tr.Panic != "" {
+				return vs.Violf("C13/panic", "hook answered %s and the sync panicked: %s", body, tr.Panic)
+			}
+			return nil
+		}
+	}
+	vs.RunFixed(t, "C13", map[string]func() error{
+		"null-entry-in-children":       answer(`{"children":[null]}`, false),
+		"null-entry-after-valid-child": answer(`{"children":[{"apiVersion":"ex.io/v1","kind":"Widget","metadata":{"name":"w0","labels":{"app":"p1"}}},null]}`, false),
+		"null-related-resource-rule":   answer(`{"relatedResources":[null]}`, true),
+	})
 }
